@@ -423,6 +423,19 @@ pub fn inv_membership(w: &mut World, mi: usize, s: &Scan, reload: bool) -> Inv {
     if model_files.is_empty() {
         return Ok(());
     }
+    // file names are the keys under which the model writes its files: they must be unique, and serialize_files() must have
+    // one entry per file (otherwise the elements of one of two same-named files are written nowhere)
+    {
+        let mut names: Vec<std::path::PathBuf> = model_files.iter().map(|f| f.filename()).collect();
+        names.sort();
+        if let Some(w2) = names.windows(2).find(|w2| w2[0] == w2[1]) {
+            return bad("membership:duplicate-file-name", format!("two files of the model are named {:?}", w2[0]));
+        }
+        let written = model.serialize_files();
+        if written.len() != model_files.len() {
+            return bad("membership:serialize_files-entry-count", format!("the model has {} files, serialize_files() returns {} texts", model_files.len(), written.len()));
+        }
+    }
     let mut eff: HashMap<usize, BTreeSet<usize>> = HashMap::new();
     for (id, parent, _, _) in &s.pre {
         let e = &w.elems[*id];
@@ -470,6 +483,14 @@ pub fn inv_membership(w: &mut World, mi: usize, s: &Scan, reload: bool) -> Inv {
         let got: Vec<(usize, usize)> = f.elements_dfs().map(|(d, e)| (d, *w.ids.get(&e).unwrap_or(&usize::MAX))).collect();
         if got != proj {
             return bad("membership:file-dfs-mismatch", format!("file{fi}.elements_dfs() yields {} elements, projection of the tree onto the file has {}", got.len(), proj.len()));
+        }
+        // the file-scoped iterator with a depth limit (depth counted from the root = 0)
+        for maxd in [1usize, 2, 3, 4] {
+            let exp: Vec<(usize, usize)> = proj.iter().filter(|(d, _)| *d <= maxd).cloned().collect();
+            let got: Vec<(usize, usize)> = f.elements_dfs_with_max_depth(maxd).map(|(d, e)| (d, *w.ids.get(&e).unwrap_or(&usize::MAX))).collect();
+            if got != exp {
+                return bad("membership:file-dfs-maxdepth-mismatch", format!("file{fi}.elements_dfs_with_max_depth({maxd}) yields {} elements, the projection of the tree onto the file has {} down to that depth", got.len(), exp.len()));
+            }
         }
         if reload {
             match f.serialize() {
